@@ -34,6 +34,8 @@ func (t *T0x0102) Parse(jtMsg *jt808.JTMessage) error {
 		version = consts.JT808Protocol2019
 	}
 	t.Version = version
+	// 每次解析都从空值开始 避免保留上一次解析(例如另一个版本)留下的字段
+	t.AuthCodeLen, t.AuthCode, t.TerminalIMEI, t.SoftwareVersion = 0, "", "", ""
 
 	body := jtMsg.Body
 	if t.Version == consts.JT808Protocol2019 {
